@@ -11,6 +11,9 @@ use std::{
 use rivia::prelude::*;
 pub use serde_json::{json, Map, Value};
 
+pub mod memproj;
+pub mod ops;
+
 
 /// A string as an array of 1-character strings (TLC cannot index into strings)
 pub fn chars(s: &str) -> Value {
@@ -153,23 +156,30 @@ impl Out {
     }
 }
 
-/// Progress marker read by the python supervisor: "<id>\t<description>\n" at offset 0
+/// Progress marker read by the python supervisor: fixed-size slots "<id>\t<description>" (one per
+/// worker thread); the supervisor kills the process when the whole file stops changing.
 pub struct Progress {
     f: Option<File>,
 }
+pub const SLOT: usize = 1600;
 impl Progress {
     pub fn from_env() -> Progress {
         match std::env::var("RVH_PROGRESS") {
-            Ok(p) if !p.is_empty() => Progress { f: File::create(p).ok() },
+            Ok(p) if !p.is_empty() => Progress { f: std::fs::OpenOptions::new().write(true).create(true).open(p).ok() },
             _ => Progress { f: None },
         }
     }
     pub fn mark(&self, id: u64, desc: &str) {
+        self.mark_slot(0, id, desc)
+    }
+    pub fn mark_slot(&self, slot: usize, id: u64, desc: &str) {
         if let Some(f) = &self.f {
-            let mut s = format!("{}\t{}", id, desc);
-            s.truncate(3000);
-            let s = format!("{:<3100}\n", s.replace('\n', " "));
-            let _ = f.write_all_at(s.as_bytes(), 0);
+            let mut s = format!("{}\t{}", id, desc.replace('\n', " "));
+            while s.len() > SLOT - 2 {
+                s.pop();
+            }
+            let s = format!("{:<w$}\n", s, w = SLOT - 1);
+            let _ = f.write_all_at(&s.as_bytes()[..SLOT], (slot * SLOT) as u64);
         }
     }
 }
